@@ -192,6 +192,19 @@ def case_special(name):
                     if base.cell_type == "tetra":
                         base.add_midpoints_volumes()
                         q.add_midpoints_faces()
+            elif name == "triangulate":
+                # extruded, in-plane distorted quads: planar faces but no parallelepipeds - a tetrahedral split that does not
+                # tile the cell changes the per-cell volume here (on parallelepipeds every tet is 1/6 of the cell)
+                from .. import gen
+                for k in range(3):
+                    q, _ = gen.build_mesh("quad", "distorted", rng, amp=0.2)
+                    h = q.expand(n=int(rng.integers(2, 4)), z=float(rng.uniform(0.5, 1.5)))
+                    for mode in (0, 3):
+                        h.triangulate(mode=mode)
+                    q.triangulate()
+                ci = fem.Circle(radius=1.3, n=3).expand(n=3, z=0.7)
+                for mode in (0, 3):
+                    ci.triangulate(mode=mode)
             elif name == "revolve":
                 for axis in (0, 1):
                     for phi, n in ((90, 7), (180, 11), (360, 13), (45.0, 3)):
@@ -256,7 +269,7 @@ def cases(tier, seed):
     out = []
     for rep in range(2 if tier == "quick" else 10):
         out.append(("generators:%d" % rep, case_generators(rep)))
-    for name in ("conversions", "revolve", "mirror", "merge", "fill_between"):
+    for name in ("conversions", "triangulate", "revolve", "mirror", "merge", "fill_between"):
         out.append(("special:" + name, case_special(name)))
     for rep in range(42 if tier == "quick" else 1500):
         out.append(("program:%d" % rep, case_program(rep)))
